@@ -36,6 +36,8 @@ def main():
                 fmt = fmt_of(vt)
                 if decreasing and fmt == "lnotab_u":
                     continue          # the unsigned format cannot represent a decreasing line: outside the property
+                if pairs[0][0] > 0 and fmt != "lines310":
+                    continue          # a mapping that begins after offset 0: the lnotab formats give offset 0 the first line implicitly
                 for shape in ("dict", "list"):
                     ident = "freeze:%s:%d.%d:%s:%s" % (cname, vt[0], vt[1], shape, json.dumps(b["map"]))
                     try:
@@ -55,6 +57,22 @@ def main():
                         fh.write(json.dumps(dict(base, id="decode:" + ident, starts=[list(p) for p in expect])) + "\n")
                         # (b) xdis's own line-start routine on the frozen object
                         fh.write(json.dumps(dict(base, id="xdis:" + ident, starts=xstarts)) + "\n")
+                        # (c) the same object is given another mapping (every line + 5) and frozen again: the second table must encode
+                        #     the second mapping (an object that remembers having been frozen must not keep the first)
+                        if shape == "dict":
+                            pairs2 = [(o, l + 5) for o, l in pairs]
+                            expect2 = [(o, l + 5) for o, l in expect]
+                            with xd.quiet():
+                                setattr(co, attr, dict(pairs2))
+                                co.freeze()
+                                t2 = getattr(co, attr)
+                            if isinstance(t2, (dict, list)):
+                                fh.write(json.dumps({"id": "decode:re" + ident, "error": "TypeError: second freeze() left the table as %s" % type(t2).__name__,
+                                                     "type": cname, "map": [list(p_) for p_ in pairs2]}) + "\n")
+                            else:
+                                tab2 = list(bytearray(t2.encode("latin-1"))) if isinstance(t2, str) else raw_table(t2)
+                                fh.write(json.dumps(dict(base, id="decode:re" + ident, tab=tab2, map=[list(p_) for p_ in pairs2],
+                                                         starts=[list(p_) for p_ in expect2])) + "\n")
                     except Exception as e:
                         fh.write(json.dumps({"id": "decode:" + ident, "error": "%s: %s" % (type(e).__name__, str(e)[:200]), "type": cname,
                                              "map": b["map"]}) + "\n")
